@@ -128,6 +128,8 @@ class _Gen:
         pending = list(want_args)  # outer arguments this block should use directly
         for _ in range(size):
             r = rng.random()
+            if depth > 0 and vis_sc and rng.random() < 0.2:
+                r = 0.59  # a rewritable node (ReduceMax with an axes attribute) inside a body, fairly often
             if pending and rng.random() < 0.7:
                 nd = self.new({"k": "lift", "a": pending.pop()})
             elif r < 0.05 and depth == 0 and [i for i in vis_any if self.info[i]["k"] == "arg" and "e" in self.info[i]["ty"]]:
@@ -142,8 +144,12 @@ class _Gen:
                 nd = self.new({"k": "const", "v": float(rng.randrange(-2, 3))})
             elif r < 0.55 and vis_sc:
                 nd = self.new({"k": rng.choice(["add", "mul"]), "a": rng.choice(vis_sc), "b": rng.choice(vis_sc)})
-            elif r < 0.60 and vis_sc:
+            elif r < 0.58 and vis_sc:
                 nd = self.new({"k": "neg", "a": rng.choice(vis_sc)})
+            elif r < 0.60 and vis_sc:
+                # ReduceMax-13 with an `axes` ATTRIBUTE (an input from opset 18 on): a node the version
+                # adapter really rewrites — inside If/Loop bodies too
+                nd = self.new({"k": "rmax", "a": rng.choice(vis_sc)})
             elif self.domains and r < 0.75 and vis_sc:
                 # several operator domains in one model: ai.onnx.ml and custom domains (through inlined models)
                 if rng.random() < 0.4:
@@ -301,7 +307,7 @@ def free_args(prog, out_ids):
             s = {i}
         elif k in ("const", "init", "junk"):
             s = set()
-        elif k in ("lift", "neg", "bin", "tcast", "cust"):
+        elif k in ("lift", "neg", "bin", "tcast", "cust", "rmax"):
             s = set(of(nd["a"]))
         elif k in ("add", "mul", "fun"):
             s = of(nd["a"]) | of(nd["b"])
@@ -436,6 +442,8 @@ def realize(prog, op=None):
                 env[i] = op.mul(env[nd["a"]], env[nd["b"]])
             elif k == "neg":
                 env[i] = op.neg(env[nd["a"]])
+            elif k == "rmax":
+                env[i] = op.reduce_max(op.unsqueeze(env[nd["a"]], op.const(np.array([0], dtype=np.int64))), axes=[0], keepdims=0)
             elif k == "fun":
                 (env[i],) = function(nd["f"])(env[nd["a"]], env[nd["b"]])
             elif k == "cust":
@@ -500,6 +508,8 @@ def evaluate(prog, feeds, out_ids):
             v = np.float32(ev(nd["a"], env) * ev(nd["b"], env))
         elif k == "neg":
             v = np.float32(-ev(nd["a"], env))
+        elif k == "rmax":
+            v = np.float32(ev(nd["a"], env))
         elif k == "fun":
             a_, b_ = ev(nd["a"], env), ev(nd["b"], env)
             v = np.float32(a_ * b_ + a_) if nd["f"] == 0 else np.float32(-a_ + b_)
@@ -537,7 +547,38 @@ def top_level(prog):
     return [n for n in prog["nodes"]]
 
 
+# Names a user may legitimately choose that coincide with parameter names of functions receiving
+# **inputs / **outputs, Python keywords, dunder names, or have unusual shapes.
+HOSTILE_NAMES = [
+    "prefix", "self", "args", "kwargs", "name", "graph", "cls", "fun", "key", "value", "type", "doc_string",
+    "producer_name", "inputs", "outputs", "model", "var", "arr", "node", "scope", "op", "result", "results",
+    "arguments", "drop_unused_inputs", "typ", "what", "item", "other", "vars", "infer_shapes", "check_model",
+    "ir_version", "concrete", "model_doc_string", "extra_opset_req", "opset_req", "subgraph", "body",
+    "class", "lambda", "def", "None", "True", "import", "__init__", "__class__", "__dict__", "_name", "_op",
+    "\u00fcn\u00efc\u00f8de", "\u540d\u524d", "n" * 300, "a.b", "a:0", "a/b", "0start", "-", "with space", "x0_",
+]
+
+
+def sprinkle_names(rng: random.Random, req, p=0.25):
+    """Replace some input/output names of a request by hostile ones (all names stay distinct)."""
+    taken = {n for n, _ in req["inputs"] + req["outputs"]}
+    for entries in (req["inputs"], req["outputs"]):
+        for e in entries:
+            if isinstance(e[0], str) and e[0] not in ("", "dup_key") and rng.random() < p:
+                cand = rng.choice(HOSTILE_NAMES)
+                if cand not in taken:
+                    taken.discard(e[0])
+                    e[0] = cand
+                    taken.add(cand)
+    return req
+
+
 def gen_request(rng: random.Random, prog, *, allow_bad=True, allow_dup=False):
+    return sprinkle_names(rng, _gen_request(rng, prog, allow_bad=allow_bad, allow_dup=allow_dup)) if rng.random() < 0.5 \
+        else _gen_request(rng, prog, allow_bad=allow_bad, allow_dup=allow_dup)
+
+
+def _gen_request(rng: random.Random, prog, *, allow_bad=True, allow_dup=False):
     """A build request over the program: {"inputs": [[name, id]], "outputs": [[name, id]], "drop": b}."""
     top = top_level(prog)
     args = [n["id"] for n in top if n["k"] == "arg"]
